@@ -94,6 +94,8 @@ add("C14", "fixed-shared-defaults", "8c74e3e / 422c645: default arrays and neste
     {"stage": "histories", "objs": [{"variant": 2, "endian": "<", "compiled": False}],
      "ops": [["default", 0, "P", "00" * 48], ["mutate", 0, 0, 7], ["mutate", 0, 1, 9], ["mutate", 0, 2, 3], ["mutate", 0, 3, 5], ["mutate", 0, 4, 5], ["mutate", 0, 5, 5], ["default", 0, "P", "00" * 48], ["kwpartial", 0, "P", "01" * 48], ["mutate", 2, 0, 9], ["default", 0, "P", "00" * 48]]})
 # --- pointers
+add("C16", "fixed-pointer-in-union", "67090ab: a pointer member of a fixed-size union kept the union's private buffer as its stream",
+    {"stage": "union-members", "unionptr": True, "ptr": "uint16", "endian": "<", "compiled": False, "form": "direct", "where": "member", "pad": 0})
 add("C16", "fixed-deref-restores-position", "8a29ebc: failed dereference left the stream at the target",
     {"stage": "heap", "defs": [{"k": "enumdef", "n": "E", "kind": "enum", "base": "uint16", "members": [["A", 1], ["B", 2]]},
                                {"k": "structdef", "n": "Tgt", "t": st([f("a", S("uint16")), f("b", S("uint8")), f("c", arr(S("uint8"), 2))])},
